@@ -290,6 +290,8 @@ def run(tier, seed, shard, nshards):
             return
         data_between = any(x.strip().startswith(".d") or x.strip().startswith(".ascii") for x in p.lines)
         nseg = sum(1 for x in p.lines if x.startswith(".org")) + 1
+        if any(x.startswith(".org 0x") and int(x.split()[1], 16) >= 0x10000 for x in p.lines):
+            s.count("class.far_segment")
         if data_between:
             s.nt((p.cpu, nseg, "macro" in " ".join(p.ctx), bool(p.files)))
             if len(s.samples) < 3:
@@ -297,7 +299,7 @@ def run(tier, seed, shard, nshards):
 
     try:
         n = 1600 if tier == "quick" else 6000
-        hyp_run(test, progs.structured_program(pools, cpus=mine, repeats=False), n, shard_seed(seed, shard, "c18"), s)
+        hyp_run(test, progs.structured_program(pools, cpus=mine, repeats=False, far_orgs=True), n, shard_seed(seed, shard, "c18"), s)
     finally:
         ck.close()
         w.close()
